@@ -11,10 +11,12 @@ import (
 	"log"
 	"net"
 	"os"
+	"testing"
 	"time"
 
 	"github.com/rqlite/rqlite/v10/command/proto"
 	"github.com/rqlite/rqlite/v10/internal/random"
+	"github.com/rqlite/rqlite/v10/internal/verif/vstat"
 )
 
 // g8bLogger returns a logger that is silent unless VERIF_DEBUG is set.
@@ -51,6 +53,26 @@ func g8bOpenSingle(id, dir string, configure func(*Store)) (*g8bNode, error) {
 	if id == "" {
 		id = random.String()
 	}
+	// start-up can fail for reasons that have nothing to do with the check (a busy
+	// machine, a port race): try a few times. A directory that held nothing before
+	// is wiped between attempts so that every attempt bootstraps.
+	_, statErr := os.Stat(dir + "/raft.db")
+	fresh := statErr != nil
+	var n *g8bNode
+	var err error
+	for attempt := 0; attempt < 3; attempt++ {
+		if n, err = g8bOpenSingleOnce(id, dir, configure); err == nil {
+			return n, nil
+		}
+		if fresh {
+			os.RemoveAll(dir)
+		}
+		time.Sleep(200 * time.Millisecond)
+	}
+	return nil, err
+}
+
+func g8bOpenSingleOnce(id, dir string, configure func(*Store)) (*g8bNode, error) {
 	n, err := g8bNewStore(id, dir)
 	if err != nil {
 		return nil, err
@@ -108,4 +130,22 @@ func g8bExec(s *Store, tx bool, stmts ...string) ([]*proto.ExecuteQueryResponse,
 		}
 	}
 	return res, idx, nil
+}
+
+// g8bInfraSkip unwinds a case that hit infrastructure trouble (a store that did
+// not come up, a request that could not be served): the case is counted as
+// inconclusive, it is neither a pass nor a violation.
+type g8bInfraSkip struct{ why string }
+
+func g8bInfra(why string) { panic(g8bInfraSkip{why}) }
+
+func g8bRecoverInfra(rec *vstat.Rec, t *testing.T) {
+	if r := recover(); r != nil {
+		if s, ok := r.(g8bInfraSkip); ok {
+			rec.Label("inconclusive:infrastructure")
+			t.Logf("inconclusive (infrastructure): %s", s.why)
+			return
+		}
+		panic(r)
+	}
 }
